@@ -66,7 +66,8 @@ def onecs(ctx):
                 # a pure forwarder (operator= calling store()): the one critical section is the callee's
                 fw = [st for st in f.stmts.values() if st["k"] == "CXXMemberCallExpr" and path(f, f.s(st["obj"])) in ("this", "*this")
                       and (fb.callee_fn(f, st) is not None) and fb.callee_fn(f, st).rec == cls
-                      and (fb.callee_fn(f, st).name in names or _is_conv(fb.callee_fn(f, st)))]
+                      and (fb.callee_fn(f, st).name in names or _is_conv(fb.callee_fn(f, st)) or
+                           fb.callee_fn(f, st).name in ("read", "modify"))]     # functor forms: one critical section around the functor
                 touches = [st for st in field_refs(f, cls) if st["m"]["name"] == "m_obj"]
                 ok = len(fw) == 1 and not touches
                 ctx.ob(rid, ok, site, "%s forwards to exactly one register operation and touches nothing itself" % f.name,
